@@ -5,6 +5,9 @@ import EaselModel.Miniapps.Shuffle
 import EaselModel.Miniapps.Translate
 import EaselModel.Miniapps.Alistat
 import EaselModel.Miniapps.Weight
+import EaselModel.Miniapps.ReformatMsa
+import EaselModel.Miniapps.Alimask
+import EaselModel.Miniapps.Alimanip
 /-! # C13 — command-line front end of the reference functions: `runTool tool argv files` = predicted stdout -/
 namespace EaselModel.Miniapps
 
@@ -164,14 +167,50 @@ def runMask (argv : List String) (files : String → Option (List Char)) : Optio
     some { r with seq := maskSeq o (a - 1) (b - 1) r.seq }
   some (String.ofList (renderFasta 60 outs))
 
-/-- esl-reformat [-d -l -n -r -u -x --gapsym c --rename s --replace a:b] --informat (fasta|afa) (fasta|afa) <file> -/
+def msaFormats : List String := ["stockholm", "pfam", "a2m", "afa", "psiblast", "clustal", "clustallike", "selex", "phylip", "phylips"]
+
+def c2b (c : List Char) : List UInt8 := c.map fun x => UInt8.ofNat x.toNat
+def b2s (b : List UInt8) : String := String.ofList (b.map fun x => Char.ofNat x.toNat)
+
+/-- alignment file in, alignment file out: the C03 readers/writers and C15 column operations composed (`ReformatMsa.lean`) -/
+def runReformatMsa (p : Parsed) (infmt outfmt : String) (src : List Char) : Option String := do
+  let gapsym ← match p.val? "--gapsym" with
+    | some v => (match v.toList with | [c] => some (some (UInt8.ofNat c.toNat)) | _ => none)
+    | none => some none
+  let repl ← match p.val? "--replace" with
+    | some v =>
+      let cs := v.toList
+      let mid := cs.length / 2
+      if cs.length % 2 = 1 && cs.getD mid ' ' = ':' then some (some (c2b (cs.take mid), c2b (cs.drop (mid + 1)))) else none
+    | none => some none
+  let namelen ← match p.val? "--namelen" with
+    | some v => (match v.toNat? with | some n => if n > 0 && n < 2 ^ 31 then some (some n) else none | none => none)
+    | none => some none
+  if p.has "--keeprf" && !p.has "--mingap" then none
+  let nw := (if p.has "--wussify" then 1 else 0) + (if p.has "--dewuss" then 1 else 0) + (if p.has "--fullwuss" then 1 else 0)
+  if nw > 1 then none
+  let o : Ali.Opts :=
+    { mingap := p.has "--mingap", keeprf := p.has "--keeprf", nogap := p.has "--nogap", replace := repl, gapsym := gapsym,
+      lower := p.has "-l", upper := p.has "-u", rna := p.has "-r", dna := p.has "-d", iupacN := p.has "-n", xbad := p.has "-x",
+      rename := (p.val? "--rename").map fun s => c2b s.toList,
+      wussify := p.has "--wussify", dewuss := p.has "--dewuss", fullwuss := p.has "--fullwuss", namelen := namelen }
+  (Ali.reformatMsa o infmt outfmt (c2b src)).map b2s
+
+/-- esl-reformat [-d -l -n -r -u -x --gapsym c --rename s --replace a:b --mingap [--keeprf] --nogap --wussify --dewuss --fullwuss
+    --namelen n] --informat <fmt> <fmt> <file> -/
 def runReformat (argv : List String) (files : String → Option (List Char)) : Option String := do
-  let p ← parseArgs ["-d", "-l", "-n", "-r", "-u", "-x", "--mingap", "--nogap"] ["--gapsym", "--informat", "--rename", "--replace"] argv {}
+  let p ← parseArgs ["-d", "-l", "-n", "-r", "-u", "-x", "--mingap", "--nogap", "--keeprf", "--wussify", "--dewuss", "--fullwuss"]
+    ["--gapsym", "--informat", "--rename", "--replace", "--namelen"] argv {}
   let infmt ← p.val? "--informat"
   if p.has "--mingap" && p.has "--nogap" then none
   if (p.has "--mingap" || p.has "--nogap") && (p.val? "--gapsym").isSome then none
   let [outfmt, fn] := p.pos | none
   if (p.has "-d" && p.has "-r") || (p.has "-l" && p.has "-u") || (p.has "-n" && p.has "-x") then none
+  if msaFormats.contains outfmt && msaFormats.contains infmt then
+    match runReformatMsa p infmt outfmt (← files fn) with
+    | some out => return out
+    | none => pure ()
+  if p.has "--keeprf" || p.has "--wussify" || p.has "--dewuss" || p.has "--fullwuss" || (p.val? "--namelen").isSome then none
   let gapsym ← match p.val? "--gapsym" with
     | some v => (match v.toList with | [c] => some (some c) | _ => none)
     | none => some none
@@ -492,6 +531,91 @@ def runTranslate (argv : List String) (files : String → Option (List Char)) : 
   translateText { code := code, minlen := minlen, onlyAUG := p.has "-m", tableInit := p.has "-M",
                   watson := !p.has "--crick", crick := !p.has "--watson", windows := p.has "-W" } recs
 
+
+def tabcOf (p : Parsed) : Option Ali.TAbc :=
+  match p.has "--dna", p.has "--rna", p.has "--amino" with
+  | true, false, false => some EaselModel.Msa.Gen.dnaAbc
+  | false, true, false => some EaselModel.Msa.Gen.rnaAbc
+  | false, false, true => some EaselModel.Msa.Gen.aminoAbc
+  | false, false, false => some EaselModel.Msa.Gen.rnaAbc      -- "alphabet is only used to define gap characters"
+  | _, _, _ => none
+
+def b2c (b : List UInt8) : List Char := b.map fun x => Char.ofNat x.toNat
+
+/-- esl-alimask  <msafile> <maskfile> | -t <msafile> <coords> | -g <msafile> | --rf-is-mask <msafile>  (not -p, not --small) -/
+def runAlimaskFull (argv : List String) (files : String → Option (List Char)) : Option (String × List (String × List Char)) := do
+  let p ← parseArgs ["-t", "-g", "--rf-is-mask", "--t-rf", "--t-rmins", "--keepins", "-q", "--dna", "--rna", "--amino"]
+    ["--gapthresh", "--informat", "--outformat", "-o", "--fmask-rf", "--fmask-all", "--gmask-rf", "--gmask-all"] argv {}
+  let abc ← tabcOf p
+  let infmt ← p.val? "--informat"
+  let outfmt := (p.val? "--outformat").getD "stockholm"
+  if !msaFormats.contains infmt || !msaFormats.contains outfmt then none
+  if p.has "-q" && (p.val? "-o").isNone then none
+  if (p.has "--t-rf" || p.has "--t-rmins") && !p.has "-t" then none
+  if ((p.val? "--gapthresh").isSome || (p.val? "--gmask-rf").isSome || (p.val? "--gmask-all").isSome) && !p.has "-g" then none
+  if p.has "-t" && (p.has "-g" || p.has "--rf-is-mask") then none
+  if p.has "--rf-is-mask" && (p.has "-g" || p.has "--keepins") then none
+  let src ← files (← p.pos.head?)
+  let mode : Ali.MaskMode ← match p.pos with
+    | [_] =>
+      if p.has "-t" then none
+      else if p.has "--rf-is-mask" then some .rfIsMask
+      else if p.has "-g" then
+        (match p.val? "--gapthresh" with
+         | some v => (parseFloatS v).bind fun x => if x ≤ 1.0 then some (Ali.MaskMode.gapfreq x.toFloat32) else none
+         | none => some (.gapfreq (0.5 : Float).toFloat32))
+      else none
+    | [_, a2] =>
+      if p.has "-g" || p.has "--rf-is-mask" then none
+      else if p.has "-t" then (Ali.parseCoords (c2b a2.toList)).map fun (st, en) => .truncate st en (p.has "--t-rf") (p.has "--t-rmins")
+      else (Ali.readMaskFile (c2b (← files a2))).map .maskfile
+    | _ => none
+  let o : Ali.AlimaskOpts :=
+    { mode := mode, abc := abc, keepins := p.has "--keepins", outfmt := outfmt, verbose := (p.val? "-o").isSome && !p.has "-q",
+      ofile := p.val? "-o", fmaskRf := p.val? "--fmask-rf", fmaskAll := p.val? "--fmask-all",
+      gmaskRf := p.val? "--gmask-rf", gmaskAll := p.val? "--gmask-all" }
+  let (out, written) ← Ali.alimask o infmt (c2b src)
+  some (b2s out, written.map fun (f, b) => (f, b2c b))
+
+
+def fabcOf (p : Parsed) : Option (EaselModel.Msafile.Abc × Ali.TAbc) :=
+  match p.has "--dna", p.has "--rna", p.has "--amino" with
+  | true, false, false => some (EaselModel.Msafile.abcDna, EaselModel.Msa.Gen.dnaAbc)
+  | false, true, false => some (EaselModel.Msafile.abcRna, EaselModel.Msa.Gen.rnaAbc)
+  | false, false, true => some (EaselModel.Msafile.abcAmino, EaselModel.Msa.Gen.aminoAbc)
+  | _, _, _ => none
+
+/-- esl-alimanip [--seq-k f [--k-reorder] | --seq-r f | --reorder f] [--lnfract x] [--lxfract x] [--lmin n] [--lmax n] [--rffract x]
+    [--detrunc n] [--xambig n] [--rm-gc tag] [--num-rf] [--num-all] [--outformat fmt] --informat (stockholm|pfam) (--dna|--rna|--amino) <msafile> -/
+def runAlimanip (argv : List String) (files : String → Option (List Char)) : Option String := do
+  let p ← parseArgs ["--k-reorder", "--num-rf", "--num-all", "--dna", "--rna", "--amino"]
+    ["--seq-k", "--seq-r", "--reorder", "--lnfract", "--lxfract", "--lmin", "--lmax", "--rffract", "--detrunc", "--xambig", "--rm-gc",
+     "--informat", "--outformat"] argv {}
+  let (fa, ta) ← fabcOf p
+  let infmt ← p.val? "--informat"
+  let outfmt := (p.val? "--outformat").getD "stockholm"
+  if !msaFormats.contains outfmt then none
+  if (p.has "--num-rf" || p.has "--num-all" || (p.val? "--rm-gc").isSome) && outfmt != "stockholm" && outfmt != "pfam" then none
+  if p.has "--k-reorder" && (p.val? "--seq-k").isNone then none
+  let nlist := (if (p.val? "--seq-k").isSome then 1 else 0) + (if (p.val? "--seq-r").isSome then 1 else 0) + (if (p.val? "--reorder").isSome then 1 else 0)
+  if nlist > 1 then none
+  let listOf (k : String) : Option (Option (List (List UInt8))) := match p.val? k with
+    | some f => (files f).map fun c => some (Ali.fileTokens (c2b c))
+    | none => some none
+  let real (k : String) (hi : Float) : Option (Option Float) := match p.val? k with
+    | some v => (parseFloatS v).bind fun x => if x ≤ hi then some (some x) else none
+    | none => some none
+  let nat1 (k : String) (lo : Nat) : Option (Option Nat) := match p.val? k with
+    | some v => v.toNat?.bind fun n => if n ≥ lo && n < 2 ^ 31 then some (some n) else none
+    | none => some none
+  let o : Ali.AlimanipOpts :=
+    { seqK := ← listOf "--seq-k", seqR := ← listOf "--seq-r", reorder := ← listOf "--reorder", kReorder := p.has "--k-reorder",
+      lnfract := ← real "--lnfract" 2.0, lxfract := ← real "--lxfract" 3.0, lmin := ← nat1 "--lmin" 1, lmax := ← nat1 "--lmax" 1,
+      rffract := ← real "--rffract" 1.0, detrunc := ← nat1 "--detrunc" 1, xambig := ← nat1 "--xambig" 0,
+      rmGc := p.val? "--rm-gc", numRf := p.has "--num-rf", numAll := p.has "--num-all", outfmt := outfmt }
+  let [fn] := p.pos | none
+  (Ali.alimanip o fa ta infmt (c2b (← files fn))).map b2s
+
 def runSfetch (argv : List String) (files : String → Option (List Char)) : Option String :=
   (runSfetchFull argv files).map (·.1)
 
@@ -509,6 +633,7 @@ def runToolCore (tool : String) (argv : List String) (files : String → Option 
   | "esl-translate" => runTranslate argv files
   | "esl-alistat" => runAlistat argv files
   | "esl-weight" => runWeight argv files
+  | "esl-alimanip" => runAlimanip argv files
   | "easel" => runEasel argv files
   | _ => none
 
@@ -522,7 +647,8 @@ def splitO : List String → List String → Option (String × List String)
 def runToolFull (tool : String) (argv : List String) (files : String → Option (List Char)) :
     Option (String × List (String × List Char)) :=
   if tool == "esl-sfetch" then runSfetchFull argv files
-  else if ["esl-shuffle", "esl-reformat", "esl-mask", "esl-weight"].contains tool then
+  else if tool == "esl-alimask" then runAlimaskFull argv files
+  else if ["esl-shuffle", "esl-reformat", "esl-mask", "esl-weight", "esl-alimanip"].contains tool then
     match splitO argv [] with
     | some (f, rest) => (runToolCore tool rest files).map fun out => ("", [(f, out.toList)])
     | none => (runToolCore tool argv files).map fun out => (out, [])
